@@ -332,6 +332,7 @@ func (s *stickyBalanceStrategy) balance(currentAssignment map[string][]topicPart
 	// make sure we are getting a more balanced assignment; otherwise, revert to previous assignment
 	if !initializing && reassignmentPerformed && getBalanceScore(currentAssignment) >= getBalanceScore(preBalanceAssignment) {
 		currentAssignment = deepCopyAssignment(preBalanceAssignment)
+		verifPoint("sticky.revert", len(fixedAssignments))
 		currentPartitionConsumer = make(map[topicPartitionAssignment]string, len(preBalancePartitionConsumers))
 		for k, v := range preBalancePartitionConsumers {
 			currentPartitionConsumer[k] = v
